@@ -687,7 +687,7 @@ def draw_driver(rng):
             dopts.append('gf_terminals')
         if rng.random() < 0.5:
             dopts.append('gf_separator:' + rng.choice(['#', '+', '/', '-',
-                                                       '--']))
+                                                       '--', '=', '*']))
     if rng.random() < 0.25:
         dopts.append('brackets_emptyroot')
     if rng.random() < 0.25:
